@@ -191,6 +191,48 @@ def run(res, tier):
     res.ob('UNREGISTER', f.where(), 'outstanding test and registration in _waitingForCompletion share one guard; the wait is outside _poolLock', same and outside, function=f.q,
            key='UNREGISTER|%s|atomic' % f.q,
            message='UnregisterClient tests for outstanding Messages and registers its wait condition in different critical sections (or waits under the lock): the completion can slip in between and the wake-up is lost')
+    # ---- round-1 additions
+    f = fx.fn1(TP + '::DoesClientHaveMessagesOutstandingUnsafe')
+    # every per-client table of the pool (a member keyed by IThreadPoolClient *) takes part in "does this client still have work": being handled, pending, deferred
+    tabs = set()
+    for g in fx.funcs.values():
+        if g.full and g.cls == TP:
+            for m in g.walk():
+                if m['k'] == 'MemberExpr' and m.get('dk') == 'Field' and A.is_this_member(m) and 'IThreadPoolClient *' in m.type() and 'Hashtable' in m.type():
+                    tabs.add(m.get('n'))
+    tabs.discard('_waitingForCompletion')      # the table of clients blocked in UnregisterClient itself
+    read = set(m.get('n') for m in f.walk() if m['k'] == 'MemberExpr' and A.is_this_member(m))
+    missing = sorted(t for t in tabs if t not in read)
+    if len(tabs) < 3:
+        raise AnalysisBroken('UNREGISTER: expected at least three per-client tables in ThreadPool, found %s' % sorted(tabs))
+    res.ob('UNREGISTER', f.where(), 'the outstanding-work predicate consults every per-client table %s' % sorted(tabs), not missing, function=f.q, key='UNREGISTER|%s|all-tables' % f.q,
+           message='DoesClientHaveMessagesOutstandingUnsafe does not look at %s: a client whose Messages sit there counts as idle, UnregisterClient() returns at once and the unhandled Messages are '
+                   'discarded' % missing)
+    f = fx.fn1(TP + '::ThreadFinishedProcessingClientMessages')
+    # the deferred queue is promoted whenever it is non-empty (accepted emptiness idioms only)
+    gp = [c for c in f.walk() if c['k'] == 'CXXMemberCallExpr' and (c.get('q') or '').endswith('::GetOrPut') and c.receiver() is not None and A.strip_casts(c.receiver()).get('n') == '_pendingMessages']
+    if not gp:
+        raise AnalysisBroken('HANDOFF-ATOMIC: the promotion of deferred Messages (_pendingMessages.GetOrPut) was not found')
+    okp, howp = False, None
+    p0 = P.pos_of(f, gp[0])
+    dq = set(v['d'] for v in f.walk() if v['k'] == 'VarDecl' and v['ch'] and any(x['k'] == 'MemberExpr' and x.get('n') == '_deferredMessages' for x in v['ch'][0].walk()))
+    for (c_, t_) in (C.guards_of_block(f, p0[0]) if p0 else []):
+        gn, pol = P.strip_not(f.nodes[c_])
+        onq = lambda e: e is not None and any(x['k'] == 'DeclRefExpr' and x.get('d') in dq for x in e.walk())
+        if gn['k'] == 'CXXMemberCallExpr' and onq(gn.receiver()):
+            m = (gn.get('q') or '').split('::')[-1]
+            if (m == 'HasItems' and t_ == pol) or (m == 'IsEmpty' and t_ != pol):
+                okp, howp = True, gn.text(40)
+        if gn['k'] == 'BinaryOperator' and gn.get('op') in ('>', '!=', '>=') and t_ == pol:
+            l, r = A.strip_casts(gn['ch'][0]), A.strip_casts(gn['ch'][1])
+            if l['k'] == 'CXXMemberCallExpr' and (l.get('q') or '').endswith('::GetNumItems') and onq(l.receiver()):
+                if (gn['op'] in ('>', '!=') and r.get('v') == 0) or (gn['op'] == '>=' and r.get('v') == 1):
+                    okp, howp = True, gn.text(40)
+                else:
+                    howp = '%s (not an emptiness test)' % gn.text(40)
+    res.ob('HANDOFF-ATOMIC', f.where(gp[0]), 'completion promotes the deferred queue whenever it is non-empty', okp, how=howp, function=f.q, key='HANDOFF-ATOMIC|%s|promote-nonempty' % f.q,
+           message='ThreadFinishedProcessingClientMessages promotes the deferred Messages under `%s` instead of "the deferred queue has items": a single deferred Message stays stranded while the client is '
+                   'marked idle; it is never handled, later Messages overtake it and UnregisterClient() blocks forever' % (howp or 'no emptiness test on the deferred queue'))
     res.explanation = ('Static decision of the thread pool\'s locking structure: %d accesses to the pool tables, each with _poolLock in the must-hold lock set (forward data flow over the CFG, RAII guard '
                        'construction/destruction/UnlockEarly as gen/kill, helper preconditions inferred from all call sites); no blocking call under the lock; hand-off, being-handled flag and pending-table '
                        'removal in one critical section; submit chooses the queue by the flag; completion clears, promotes, dispatches under one guard; unregister registers atomically with its test and waits '
